@@ -1,7 +1,9 @@
 //! C14: Base64Encoder / Base64Decoder under write partitions, read schedules and destination sizes.
 use crate::util::*;
 use serde_json::{json, Value};
-use std::io::{Read, Write};
+use std::cell::RefCell;
+use std::io::{BufRead, BufReader, IoSlice, IoSliceMut, Read, Write};
+use std::rc::Rc;
 use surf_n_term::decoder::Base64Decoder;
 use surf_n_term::encoder::Base64Encoder;
 
@@ -46,8 +48,274 @@ fn cres(r: &Option<Result<Vec<u8>, Vec<u8>>>) -> (String, Value) {
     }
 }
 
+// ---------------------------------------------------------------- consumption / production programs
+
+/// one operation of the std::io::Read surface on the SAME decoder; Ok(bytes) | Err(true = UnexpectedEof)
+fn dec_op<R: Read>(dec: &mut Base64Decoder<R>, op: &Value) -> Result<Vec<u8>, bool> {
+    let n = op["n"].as_u64().unwrap_or(0) as usize;
+    let by_ref = op["by_ref"].as_bool().unwrap_or(false);
+    let fail = |e: std::io::Error| e.kind() == std::io::ErrorKind::UnexpectedEof;
+    match op["op"].as_str().unwrap_or("") {
+        "read" => {
+            let mut buf = vec![0u8; n];
+            let k = if by_ref { dec.by_ref().read(&mut buf) } else { dec.read(&mut buf) }.map_err(fail)?;
+            buf.truncate(k);
+            Ok(buf)
+        }
+        "exact" => {
+            let mut buf = vec![0u8; n];
+            if by_ref { dec.by_ref().read_exact(&mut buf) } else { dec.read_exact(&mut buf) }.map_err(fail)?;
+            Ok(buf)
+        }
+        "to_end" => {
+            let mut v = vec![];
+            if by_ref { dec.by_ref().read_to_end(&mut v) } else { dec.read_to_end(&mut v) }.map_err(fail)?;
+            Ok(v)
+        }
+        "to_string" => {
+            let mut v = String::new();
+            if by_ref { dec.by_ref().read_to_string(&mut v) } else { dec.read_to_string(&mut v) }.map_err(fail)?;
+            Ok(v.into_bytes())
+        }
+        "vectored" => {
+            let ns = vusizes(&op["ns"]);
+            let mut bufs: Vec<Vec<u8>> = ns.iter().map(|k| vec![0u8; *k]).collect();
+            let k = {
+                let mut slices: Vec<IoSliceMut> = bufs.iter_mut().map(|b| IoSliceMut::new(b)).collect();
+                dec.read_vectored(&mut slices).map_err(fail)?
+            };
+            let all: Vec<u8> = bufs.concat();
+            Ok(all[..k.min(all.len())].to_vec())
+        }
+        "bytes" => {
+            let mut out = vec![];
+            let mut it = dec.by_ref().bytes();
+            for _ in 0..n {
+                match it.next() {
+                    None => break,
+                    Some(Ok(b)) => out.push(b),
+                    Some(Err(e)) => return Err(fail(e)),
+                }
+            }
+            Ok(out)
+        }
+        "take" => {
+            let mut v = vec![];
+            dec.by_ref().take(n as u64).read_to_end(&mut v).map_err(fail)?;
+            Ok(v)
+        }
+        "buf_fill" => {
+            // BufReader with a small capacity: one fill_buf, everything it holds is consumed
+            let mut br = BufReader::with_capacity(n, dec.by_ref());
+            let got = br.fill_buf().map_err(fail)?.to_vec();
+            br.consume(got.len());
+            Ok(got)
+        }
+        "buf_to_end" => {
+            let mut br = BufReader::with_capacity(n.max(1), dec.by_ref());
+            let mut v = vec![];
+            br.read_to_end(&mut v).map_err(fail)?;
+            Ok(v)
+        }
+        _ => Ok(vec![]),
+    }
+}
+
+fn coq_dop(op: &Value) -> String {
+    let n = op["n"].as_u64().unwrap_or(0) as usize;
+    match op["op"].as_str().unwrap_or("") {
+        "read" | "buf_fill" => format!("ORead {}", cnat(n)),
+        "exact" => format!("OExact {}", cnat(n)),
+        "vectored" => format!("OVectored {}", clist(vusizes(&op["ns"]).into_iter().map(cnat))),
+        "bytes" => format!("OBytes {}", cnat(n)),
+        "take" => format!("OTake {}", cnat(n)),
+        _ => "OToEnd".to_string(),
+    }
+}
+
+fn run_decprog(input: &Value) -> Case {
+    let text = vbytes(&input["text"]);
+    let sched = vusizes(&input["sched"]);
+    let orig = if input["orig"].is_null() { None } else { Some(vbytes(&input["orig"])) };
+    let ops: Vec<Value> = input["ops"].as_array().cloned().unwrap_or_default();
+    let (t2, s2, o2) = (text.clone(), sched.clone(), ops.clone());
+    // Some(results): per operation Ok(bytes) / Err(eof?), stopping at the first error
+    let r = catch(move || {
+        let mut dec = Base64Decoder::new(SchedReader { data: t2, pos: 0, sched: s2, k: 0 });
+        let mut out: Vec<Result<Vec<u8>, bool>> = vec![];
+        for op in &o2 {
+            let r = dec_op(&mut dec, op);
+            let stop = r.is_err();
+            out.push(r);
+            if stop {
+                break;
+            }
+        }
+        out
+    });
+    let mut j = input.clone();
+    let (impl_coq, restag) = match &r {
+        None => {
+            j["impl"] = json!("panic");
+            ("None".to_string(), "prog.res=panic")
+        }
+        Some(rs) => {
+            j["impl"] = Value::Array(
+                rs.iter()
+                    .map(|x| match x {
+                        Ok(b) => json!({ "got": jbytes(b) }),
+                        Err(true) => json!("eof"),
+                        Err(false) => json!("err"),
+                    })
+                    .collect(),
+            );
+            let c = clist(rs.iter().map(|x| match x {
+                Ok(b) => format!("Got {}", cbytes(b)),
+                Err(true) => "EofErr".to_string(),
+                Err(false) => "Failed".to_string(),
+            }));
+            let tag = match rs.last() {
+                Some(Err(true)) => "prog.res=eof",
+                Some(Err(false)) => "prog.res=err",
+                _ => "prog.res=ok",
+            };
+            (format!("(Some {})", c), tag)
+        }
+    };
+    let mut tags = vec!["decprog".to_string(), restag.to_string(), if orig.is_some() { "prog.valid".into() } else { "prog.malformed".to_string() }];
+    let mut kinds: Vec<String> = ops.iter().map(|o| o["op"].as_str().unwrap_or("").to_string()).collect();
+    // the pair that matters: something consumed first, then a bulk operation
+    for w in kinds.windows(2) {
+        tags.push(format!("prog.pair={}>{}", w[0], w[1]));
+    }
+    kinds.sort();
+    kinds.dedup();
+    for k in kinds {
+        tags.push(format!("prog.op={}", k));
+    }
+    Case {
+        coq: format!(
+            "DecProg {} {} {} {} {}",
+            copt(orig.as_ref().map(|o| cbytes(o))),
+            cbytes(&text),
+            cnums(&sched),
+            clist(ops.iter().map(|o| format!("({})", coq_dop(o)))),
+            impl_coq
+        ),
+        json: j,
+        tags,
+        nontrivial: ops.len() >= 2 && text.len() >= 4,
+    }
+}
+
+#[derive(Clone)]
+struct Sink(Rc<RefCell<Vec<u8>>>);
+
+impl Write for Sink {
+    fn write(&mut self, buf: &[u8]) -> std::io::Result<usize> {
+        self.0.borrow_mut().extend_from_slice(buf);
+        Ok(buf.len())
+    }
+    fn flush(&mut self) -> std::io::Result<()> {
+        Ok(())
+    }
+}
+
+fn run_encprog(input: &Value) -> Case {
+    let ops: Vec<Value> = input["ops"].as_array().cloned().unwrap_or_default();
+    let finish = input["finish"].as_bool().unwrap_or(true);
+    let o2 = ops.clone();
+    // (per operation: Ok(accepted) for writes, Err(snapshot) for flush; final text)
+    let r = catch(move || -> Option<(Vec<Result<usize, Vec<u8>>>, Vec<u8>)> {
+        let sink = Sink(Rc::new(RefCell::new(vec![])));
+        let mut e = Base64Encoder::new(sink.clone());
+        let mut rets = vec![];
+        for op in &o2 {
+            match op["op"].as_str().unwrap_or("") {
+                "write" => rets.push(Ok(e.write(&vbytes(&op["buf"])).ok()?)),
+                "write_all" => {
+                    let b = vbytes(&op["buf"]);
+                    e.write_all(&b).ok()?;
+                    rets.push(Ok(b.len()));
+                }
+                "fmt" => {
+                    let b = vbytes(&op["buf"]);
+                    let s = String::from_utf8(b.clone()).ok()?;
+                    write!(e, "{}", s).ok()?;
+                    rets.push(Ok(b.len()));
+                }
+                "vectored" => {
+                    let bufs: Vec<Vec<u8>> = op["bufs"].as_array().map(|a| a.iter().map(vbytes).collect()).unwrap_or_default();
+                    let slices: Vec<IoSlice> = bufs.iter().map(|b| IoSlice::new(b)).collect();
+                    rets.push(Ok(e.write_vectored(&slices).ok()?));
+                }
+                _ => {
+                    e.flush().ok()?;
+                    rets.push(Err(sink.0.borrow().clone()));
+                }
+            }
+        }
+        if finish {
+            e.finish().ok()?;
+        } else {
+            drop(e);
+        }
+        let out = sink.0.borrow().clone();
+        Some((rets, out))
+    });
+    let mut j = input.clone();
+    let coq_ops = clist(ops.iter().map(|op| match op["op"].as_str().unwrap_or("") {
+        "vectored" => format!(
+            "EWrite true {}",
+            clist(op["bufs"].as_array().map(|a| a.iter().map(|b| cbytes(&vbytes(b))).collect::<Vec<_>>()).unwrap_or_default())
+        ),
+        "write" | "write_all" | "fmt" => format!("EWrite false [{}]", cbytes(&vbytes(&op["buf"]))),
+        _ => "EFlush".to_string(),
+    }));
+    let (rets, out, restag) = match &r {
+        Some(Some((rets, out))) => {
+            j["impl"] = json!({"out": jbytes(out), "rets": rets.iter().map(|x| match x { Ok(n) => json!(n), Err(s) => json!({"flushed": s.len()}) }).collect::<Vec<_>>()});
+            (
+                clist(rets.iter().map(|x| match x {
+                    Ok(n) => format!("Wrote {}", cnat(*n)),
+                    Err(s) => format!("Flushed {}", cbytes(s)),
+                })),
+                format!("(Some {})", cbytes(out)),
+                "encprog.res=ok",
+            )
+        }
+        Some(None) => {
+            j["impl"] = json!("err");
+            ("[]".to_string(), "None".to_string(), "encprog.res=err")
+        }
+        None => {
+            j["impl"] = json!("panic");
+            ("[]".to_string(), "None".to_string(), "encprog.res=panic")
+        }
+    };
+    let mut tags = vec!["encprog".to_string(), restag.to_string(), format!("encprog.finish={}", finish)];
+    let mut kinds: Vec<String> = ops.iter().map(|o| o["op"].as_str().unwrap_or("").to_string()).collect();
+    kinds.sort();
+    kinds.dedup();
+    for k in kinds {
+        tags.push(format!("encprog.op={}", k));
+    }
+    Case {
+        coq: format!("EncProg {} {} {} {}", coq_ops, cbool(finish), rets, out),
+        json: j,
+        tags,
+        nontrivial: ops.len() >= 2,
+    }
+}
+
 pub fn run(input: &Value) -> Case {
     let kind = input["kind"].as_str().unwrap_or("");
+    if kind == "decprog" {
+        return run_decprog(input);
+    }
+    if kind == "encprog" {
+        return run_encprog(input);
+    }
     if kind == "enc" {
         let chunks: Vec<Vec<u8>> = input["chunks"].as_array().unwrap().iter().map(vbytes).collect();
         let c2 = chunks.clone();
@@ -173,8 +441,106 @@ fn gen_dests(rng: &mut Rng) -> Vec<usize> {
     }
 }
 
+/// sizes for buffers / counts: the boundaries of the 3-byte carry, the 64-byte decode buffer and
+/// its 63-byte fill, their multiples, and every integer constant written in the codec's sources
+fn size_stream() -> Vec<usize> {
+    let mut v: Vec<usize> = vec![0, 1, 2, 3, 4, 5, 31, 32, 33, 47, 48, 49, 61, 62, 63, 64, 65, 66, 125, 126, 127, 128, 129, 189, 190, 192, 256];
+    v.extend(source_boundaries(&["src/decoder.rs", "src/encoder.rs"], 4096).into_iter().map(|x| x as usize));
+    v.sort_unstable();
+    v.dedup();
+    v
+}
+
+fn pick_size(rng: &mut Rng, sizes: &[usize], cap: usize) -> usize {
+    if rng.chance(1, 4) {
+        rng.below(cap as u64 + 1) as usize
+    } else {
+        let small: Vec<usize> = sizes.iter().copied().filter(|s| *s <= cap).collect();
+        if small.is_empty() { 0 } else { *rng.pick(&small) }
+    }
+}
+
+fn gen_dec_op(rng: &mut Rng, sizes: &[usize], ascii: bool) -> Value {
+    let by_ref = rng.chance(1, 3);
+    match rng.below(12) {
+        0 | 1 | 2 => json!({"op": "read", "n": pick_size(rng, sizes, 300), "by_ref": by_ref}),
+        3 | 4 => json!({"op": "exact", "n": pick_size(rng, sizes, 200), "by_ref": by_ref}),
+        5 => {
+            let k = 1 + rng.below(3) as usize;
+            json!({"op": "vectored", "ns": (0..k).map(|_| pick_size(rng, sizes, 100)).collect::<Vec<_>>()})
+        }
+        6 => json!({"op": "bytes", "n": pick_size(rng, sizes, 130)}),
+        7 => json!({"op": "take", "n": pick_size(rng, sizes, 300)}),
+        8 => json!({"op": "buf_fill", "n": pick_size(rng, sizes, 200)}),
+        9 => json!({"op": "to_end", "by_ref": by_ref}),
+        10 => {
+            if ascii {
+                json!({"op": "to_string", "by_ref": by_ref})
+            } else {
+                json!({"op": "to_end", "by_ref": by_ref})
+            }
+        }
+        _ => json!({"op": "buf_to_end", "n": pick_size(rng, sizes, 100)}),
+    }
+}
+
+/// a program over one decoder: a few partial operations, always ended by a draining one
+fn gen_dec_prog(rng: &mut Rng, sizes: &[usize], ascii: bool) -> Vec<Value> {
+    let k = rng.below(5) as usize;
+    let mut ops: Vec<Value> = (0..k).map(|_| gen_dec_op(rng, sizes, ascii)).collect();
+    let last = match rng.below(4) {
+        0 if ascii => json!({"op": "to_string"}),
+        1 => json!({"op": "buf_to_end", "n": pick_size(rng, sizes, 100)}),
+        2 => json!({"op": "to_end", "by_ref": true}),
+        _ => json!({"op": "to_end"}),
+    };
+    ops.push(last);
+    ops
+}
+
+fn gen_enc_prog(rng: &mut Rng, sizes: &[usize]) -> Value {
+    let k = 1 + rng.below(7) as usize;
+    let mut ops = vec![];
+    for _ in 0..k {
+        let len = pick_size(rng, sizes, 200);
+        let op = match rng.below(9) {
+            0 | 1 => json!({"op": "write", "buf": jbytes(&rng.bytes(len))}),
+            2 | 3 => json!({"op": "write_all", "buf": jbytes(&rng.bytes(len))}),
+            4 => {
+                let b: Vec<u8> = (0..len).map(|_| b' ' + (rng.below(95) as u8)).collect();
+                json!({"op": "fmt", "buf": jbytes(&b)})
+            }
+            5 | 6 => {
+                let m = 1 + rng.below(3) as usize;
+                let bufs: Vec<Value> = (0..m).map(|_| { let l = pick_size(rng, sizes, 70); jbytes(&rng.bytes(l)) }).collect();
+                json!({"op": "vectored", "bufs": bufs})
+            }
+            _ => json!({"op": "flush"}),
+        };
+        ops.push(op);
+    }
+    json!({"kind": "encprog", "ops": ops, "finish": !rng.chance(1, 4)})
+}
+
 pub fn generate(rng: &mut Rng, n: usize, _tier: &str) -> Vec<Value> {
     let mut v = vec![];
+    let sizes = size_stream();
+    // fixed part of the programs: every first operation with a size around the internal chunk, then each bulk operation
+    for first in ["read", "exact", "bytes", "take", "buf_fill", "vectored"] {
+        for n1 in [1usize, 5, 62, 63, 64] {
+            for bulk in ["to_end", "to_string", "buf_to_end", "take"] {
+                let x: Vec<u8> = (0..150).map(|i| b'A' + (i % 26) as u8).collect();
+                let t = ref_encode(&x);
+                let op1 = if first == "vectored" { json!({"op": first, "ns": [0, n1, 3]}) } else { json!({"op": first, "n": n1}) };
+                let mut ops = vec![op1, json!({"op": bulk, "n": 200})];
+                if bulk == "take" {
+                    ops.push(json!({"op": "to_end"}));
+                }
+                v.push(json!({"kind": "decprog", "orig": jbytes(&x), "text": jbytes(&t), "sched": [], "ops": ops}));
+            }
+        }
+    }
+    let n = n + v.len();
     // fixed part: every length 0..=9 with the all-ones schedule and 1-byte destinations
     for len in 0..=9usize {
         let x: Vec<u8> = (0..len).map(|i| (i * 37 + 200) as u8).collect();
@@ -183,7 +549,27 @@ pub fn generate(rng: &mut Rng, n: usize, _tier: &str) -> Vec<Value> {
         v.push(json!({"kind":"dec","orig":jbytes(&x),"text":jbytes(&t),"sched":vec![1;t.len()+2],"dests":[1]}));
     }
     while v.len() < n {
-        match rng.below(10) {
+        match rng.below(16) {
+            10..=13 => {
+                // decoder programs: valid text (two thirds) or malformed
+                let len = if rng.chance(1, 3) { gen_len(rng) } else { 60 + rng.below(260) as usize };
+                let ascii = rng.chance(1, 2);
+                let x: Vec<u8> = if ascii { (0..len).map(|_| b' ' + rng.below(95) as u8).collect() } else { rng.bytes(len) };
+                let mut t = ref_encode(&x);
+                let valid = !rng.chance(1, 3);
+                if !valid && !t.is_empty() {
+                    match rng.below(3) {
+                        0 => { let cut = rng.below(t.len() as u64) as usize; t.truncate(cut) }
+                        1 => { let i = rng.below(t.len() as u64) as usize; t[i] = b'=' }
+                        _ => { let k = 1 + rng.below(3) as usize; t.extend(rng.bytes(k)) }
+                    }
+                }
+                let sched = gen_sched(rng, t.len());
+                let ops = gen_dec_prog(rng, &sizes, ascii && valid);
+                let orig = if valid { jbytes(&x) } else { Value::Null };
+                v.push(json!({"kind":"decprog","orig":orig,"text":jbytes(&t),"sched":sched,"ops":ops}));
+            }
+            14 | 15 => v.push(gen_enc_prog(rng, &sizes)),
             0..=2 => {
                 let len = gen_len(rng);
                 let x = rng.bytes(len);
@@ -239,7 +625,7 @@ pub fn batch(inputs: &[Value]) -> Batch {
         coq_import: "Corr.C14Corr",
         case_type: "c14_case",
         report_fn: "c14_report",
-        rule: "enc cases: bytes split into >=2 write calls; dec cases: >=4 text bytes read through a schedule containing a read shorter than 4 bytes; distinct by input",
+        rule: "enc cases: bytes split into >=2 write calls; dec cases: >=4 text bytes read through a schedule containing a read shorter than 4 bytes; program cases: at least two operations on one encoder / decoder; distinct by input",
         cases: inputs.iter().map(run).collect(),
         preamble: String::new(),
     }
